@@ -346,7 +346,7 @@ PROPS['C05'] = dict(
     post=['c05diff'],
     quick=[S('rel'), S('dbg')],
     thorough=[S('rel'), S('dbg')],
-    rule='an operation table of 78 entries (~120 distinct public fallible APIs of civil::{Date,Time,DateTime,ISOWeekDate,Weekday}, Timestamp, Zoned, Span, SignedDuration, tz::{Offset,TimeZone,AmbiguousTimestamp,AmbiguousZoned,OffsetConflict} '
+    rule='an operation table of 81 entries (~120 distinct public fallible APIs of civil::{Date,Time,DateTime,ISOWeekDate,Weekday}, Timestamp, Zoned, Span, SignedDuration, tz::{Offset,TimeZone,AmbiguousTimestamp,AmbiguousZoned,OffsetConflict} '
          'and the *With/*Round/*Difference/*Series helpers) executed on seeded limit-biased argument tuples (type MIN/MAX and +-1, zero, sign changes, every Unit, all 9 modes, increments {0,-1,i64::MIN/MAX,divisors,non-divisors}, 18 time zones incl. date-line, sub-minute, POSIX and extreme fixed offsets, instants next to transitions). '
          'Each case is a pure function of (seed, shard, index) so the release and the debug-assertion build execute the same list; monitors: panic hook (file:line), range predicates on every Ok value (raw getters + re-validation through the checked constructors + Zoned consistency), '
          'and an offline case-by-case diff of the two builds\' canonical results. distinct_nontrivial = distinct (result, index) of every 7th case',
